@@ -720,6 +720,8 @@ fn write_evidence(scn: &dyn Scenario, opts: &CheckOpts, a: &Agg, det_checked: u6
             "samples": a.samples,
             "distinct_signatures_all": a.sigs.len(),
             "runs_per_hour": if wall > 0.0 { (a.evaluations as f64 / wall * 3600.0) as u64 } else { 0 },
+            "seeds_per_hour": if wall > 0.0 { (a.evaluations as f64 / wall * 3600.0) as u64 } else { 0 },
+            "seed_derivation": "run_seed = mix(VERIF_SEED, property, run_index); the plan and the schedule tape of a run are drawn from it and nowhere else",
             "simulated_seconds": a.sim_ms as f64 / 1000.0,
             "faults_fired": faults,
             "probes": probes,
